@@ -53,7 +53,7 @@ type c14Srv struct {
 	stuck    int // packets the server never finished with (each costs a watchdog period)
 }
 
-func newC14Srv(w *core.W, kind string, seed uint64) *c14Srv {
+func newC14Srv(w *core.W, kind string, seed uint64, conf ...func(*dns.Server)) *c14Srv {
 	s := &c14Srv{w: w, kind: kind, ctl: sched.New(seed), serveErr: make(chan error, 1)}
 	sched.Use(s.ctl)
 	started := make(chan struct{})
@@ -70,6 +70,9 @@ func newC14Srv(w *core.W, kind string, seed uint64) *c14Srv {
 			rw.WriteMsg(r)
 		}),
 		MsgInvalidFunc: func(m []byte, err error) { s.invalid.Add(1) },
+	}
+	for _, f := range conf {
+		f(s.srv)
 	}
 	if kind == "udp" {
 		s.pc = netsim.NewPacketConn()
@@ -493,6 +496,78 @@ func c14Pipeline(w *core.W, s *c14Srv, r interface{ IntN(int) int }, k int) {
 	}
 }
 
+// c14LongPipelines: one connection carrying as many queries as the per-connection limit allows (the
+// documented default of 128, an explicit limit, or none at all): every message up to the limit is a
+// message the server receives, so each is handled exactly once and answered, in order.
+func c14LongPipelines(w *core.W, j int) {
+	limit := []int{0, -1, 1, 5, 0, -1, 2, 127}[j%8]
+	eff := limit
+	if limit == 0 {
+		eff = 128
+	}
+	k := eff
+	if limit == -1 {
+		k = 130 + 90*(j%3)
+		eff = k
+	} else if j%2 == 1 || j%8 == 4 {
+		k = eff + 3 // three more than the server will read: the first `limit` are still its business
+	}
+	s := newC14Srv(w, "tcp", uint64(w.Seed)+uint64(j), func(srv *dns.Server) { srv.MaxTCPQueries = limit })
+	if s == nil {
+		return
+	}
+	defer s.stop()
+	var stream []byte
+	for i := 0; i < k; i++ {
+		q := new(dns.Msg)
+		q.SetQuestion(fmt.Sprintf("q%d.long-pipeline.example.", i), dns.TypeA)
+		q.Id = uint16(0x1000 + i)
+		b, _ := q.Pack()
+		stream = append(stream, frame(b)...)
+	}
+	cl, err := s.ln.Dial()
+	if err != nil {
+		w.Inconclusive("long-pipeline-dial")
+		return
+	}
+	defer cl.Close()
+	cl.Write(stream)
+	w.Eval(1)
+	w.Count("long_pipelines", 1)
+	w.Cover("long_pipeline_limit", fmt.Sprintf("MaxTCPQueries=%d sent=%d", limit, k))
+	deadline := time.Now().Add(c13Watch)
+	for int(s.handled.Load()) < eff && time.Now().Before(deadline) {
+		time.Sleep(100 * time.Microsecond)
+	}
+	time.Sleep(2 * time.Millisecond)
+	wit := map[string]any{"MaxTCPQueries": limit, "sent": k}
+	got := int(s.handled.Load())
+	if got < eff {
+		w.Violation("C14/long-pipeline/not-all-handled", fmt.Sprintf("MaxTCPQueries=%d (effective %d), %d queries sent on one connection: the handler ran %d times", limit, eff, k, got), wit)
+		return
+	}
+	w.Count("long_pipeline_messages_handled", got)
+	raw := cl.Drain()
+	n := 0
+	for len(raw) >= 2 {
+		l := int(binary.BigEndian.Uint16(raw))
+		if 2+l > len(raw) || l < 12 {
+			w.Violation("C14/long-pipeline/reply-framing", "replies on the connection are not framed correctly", wit)
+			return
+		}
+		if id := binary.BigEndian.Uint16(raw[2:]); n < eff && id != uint16(0x1000+n) {
+			w.Violation("C14/long-pipeline/reply-order", fmt.Sprintf("reply %d carries id %#x, want %#x", n, id, 0x1000+n), wit)
+			return
+		}
+		n++
+		raw = raw[2+l:]
+	}
+	if n < eff {
+		w.Violation("C14/long-pipeline/replies-missing", fmt.Sprintf("MaxTCPQueries=%d, %d queries sent, %d handled, %d replies on the wire", limit, k, got, n), wit)
+	}
+	w.NontrivialStr("long-pipeline", fmt.Sprint(limit), fmt.Sprint(k))
+}
+
 // ---- routing (pure) ----
 
 type muxRW struct{ msg *dns.Msg }
@@ -898,6 +973,7 @@ func init() {
 	plan, run := sections(
 		section{"admission", tiered(120, 4000), c14Admission},
 		section{"shutdown-race", tiered(12, 200), c14ReadCompletesAsShutdownBegins},
+		section{"long-pipelines", tiered(8, 160), c14LongPipelines},
 		section{"routing", tiered(300, 10000), c14Routing},
 		section{"mux-linearizability", tiered(300, 10000), c14Linearizable},
 	)
@@ -907,6 +983,6 @@ func init() {
 			"oracle = reference accept policy + exactly-one-of {handler once, reject reply, ignore, invalid callback(+FORMERR)} + reply shape; routing: random pattern sets over related names (escaped dots, case variants, relative spellings, root) x query names/types against a wire-label longest-suffix reference (DS: any registered strict ancestor); " +
 			"concurrent Handle/HandleRemove/ServeDNS histories (4 threads x 8 ops) checked for linearizability with porcupine; race detector on; non-trivial = distinct packet/transport, routing case or history",
 		Assumptions: []string{"for DS queries the statement does not say which of several registered ancestors is meant: any registered strict ancestor is accepted"},
-		MinObserved: []string{"accepted_and_handled", "accepted_but_undecodable", "short_packets", "wellformed_queries", "routing_ds_cases", "routing_refused", "histories", "segmented_stream_deliveries", "pipelines", "routing_reconfigurations"},
+		MinObserved: []string{"accepted_and_handled", "accepted_but_undecodable", "short_packets", "wellformed_queries", "routing_ds_cases", "routing_refused", "histories", "segmented_stream_deliveries", "pipelines", "routing_reconfigurations", "long_pipelines"},
 	})
 }
